@@ -39,7 +39,13 @@ func (l linearInterpolator) interpolate(frac float64) Point {
 	if idx-1 >= 0 {
 		partial -= l.cumulative[idx-1]
 	}
-	partial /= p0.XY.distanceTo(p1.XY)
+	segLength := p0.XY.distanceTo(p1.XY)
+	if segLength == 0 {
+		// The segment is degenerate (e.g. the LineString starts with a
+		// repeated point), so every fraction along it is the same location.
+		return p0.AsPoint()
+	}
+	partial /= segLength
 
 	return interpolateCoords(p0, p1, partial).AsPoint()
 }
